@@ -73,7 +73,7 @@ class P(Property):
             'woken; still pending at quiescence = hang). All histories of 0..3 (quick) / 0..4 (thorough) accepted requests x 14 '
             'life cycles each (resolver dropped, FIN / RESET before HEADERS, QPACK-invalid, malformed, wrong first frame, '
             'finish+drop, drop, RESET after HEADERS, split with the halves dropped in either order, one half kept, stream kept, '
-            'resolver kept) x interleavings of the life cycles (all for <= 2 requests) x the peer GOAWAY at every position x '
+            'resolver kept) x every arrival/acceptance order of the stream ids for <= 2 requests (thorough <= 3; beyond: stream-id order + one seeded other order) x interleavings of the life cycles x the peer GOAWAY at every position x '
             'eager / lazy polling, plus seeded random histories (arrivals after GOAWAY, operations before hand-out, several '
             'GOAWAYs). Every implementation trace is judged by the extracted Coq drain monitor. non-trivial = distinct cases in '
             'which at least one request was handed out')
@@ -86,13 +86,22 @@ class P(Property):
         maxk = 3 if tier == 'quick' else 4
         for k in range(0, maxk + 1):
             ids = [4 * i for i in range(k)]
+            perms = list(itertools.permutations(ids))
             for ends in itertools.product(range(len(ENDINGS)), repeat=k):
-                if k == 3 and tier == 'quick' and rng.random() < 0.5:
+                if k == 3 and tier == 'quick' and rng.random() < 0.6:
                     continue
                 lists = [['x%d:%s' % (ids[i], a) for a in ENDINGS[e]] for i, e in enumerate(ends)]
-                lim = 80 if k <= 2 else (2 if k == 3 else 1)
-                for body in merges(lists, rng, lim):
-                    pre = ['A%d' % i for i in ids] + ['P']
+                lim = (80 if tier != 'quick' else 24) if k <= 2 else (2 if k == 3 else 1)
+                # arrival (= acceptance) order is a dimension: every order for <= 2 requests (thorough: <= 3),
+                # stream-id order plus one seeded other order beyond
+                if k <= 2 or (k == 3 and tier != 'quick'):
+                    orders = perms
+                else:
+                    orders = [perms[0], perms[rng.randrange(1, len(perms))]]
+                for order, body in itertools.product(orders, merges(lists, rng, lim)):
+                    pre = ['A%d' % i for i in order] + ['P']
+                    if len(order) >= 2 and rng.random() < 0.25:
+                        pre = ['A%d' % order[0], 'P'] + ['A%d' % i for i in order[1:]] + ['P']   # accepted by separate polls
                     n = len(body)
                     gpos = range(-1, n + 1) if k <= 2 else sorted({-1, 0, n // 2, n})
                     for gp in gpos:
@@ -120,10 +129,13 @@ class P(Property):
         for _ in range(6000 if tier == 'quick' else 200000):
             L = rng.randint(4, 30)
             toks, na = [], 0
+            aids = [0, 4, 8, 12, 16, 20]
+            if rng.random() < 0.6:
+                rng.shuffle(aids)
             for _ in range(L):
                 r = rng.random()
                 if r < 0.18 and na < 6:
-                    toks.append('A%d' % (4 * na))
+                    toks.append('A%d' % aids[na])
                     na += 1
                 elif r < 0.42:
                     toks.append('P')
